@@ -34,6 +34,7 @@ type Op struct {
 	IDs     []uint64 `json:"ids,omitempty"`
 	Convs   []string `json:"convs,omitempty"`
 	Files   []int    `json:"files,omitempty"`
+	After   []int    `json:"after,omitempty"` // ImportBad: captures queued in the same call behind the bad one (Files: in front of it)
 	V       int      `json:"v,omitempty"`
 	Stream  uint64   `json:"stream,omitempty"`
 	Conv    string   `json:"conv,omitempty"`
@@ -618,6 +619,15 @@ func Gen(prop, tier string, seed, run uint64) Plan {
 		}
 		at := r.IntN(len(impOps) + 1)
 		impOps = append(impOps[:at], append([]Op{bad}, impOps[at:]...)...)
+	}
+	// a bad capture in the middle of one import call: [good..., bad, good...]
+	for i := 1; i+1 < len(impOps); i++ {
+		if impOps[i].K == "ImportBad" && impOps[i-1].K == "Import" && impOps[i+1].K == "Import" && r.IntN(2) == 0 {
+			impOps[i].Files = impOps[i-1].Files
+			impOps[i].After = impOps[i+1].Files
+			impOps = append(impOps[:i-1], append([]Op{impOps[i]}, impOps[i+2:]...)...)
+			break
+		}
 	}
 	if p.Loopback {
 		mutOps = append([]Op{{C: CMut, K: "AddEndpoint", Addr: "LOOPBACK"}}, mutOps...)
